@@ -766,7 +766,7 @@ newest:
 // Generators
 
 var realmPool = []string{"EXAMPLE.COM", "EXAMPLE.COMX", "EXAMPLE.CO", "example.com", "TEST.GOKRB5", "A", "Ünïcode.Réalm", ""}
-var compPool = []string{"HTTP", "host.example.com", "host.example.co", "host", "http", "krbtgt", "EXAMPLE.COM", "user1", "admin", "", "x", "ü", "a/b", "a@b", "sp ace"}
+var compPool = []string{"HTTP", "host.example.com", "host.example.co", "host", "http", "krbtgt", "EXAMPLE.COM", "user1", "admin", "", "x", "ü", "a/b", "a@b", "sp ace", "db/primary", "a/b", "x/"}
 var etypePool = []uint16{17, 18, 23, 16, 19, 20, 1, 3, 0, 24, 0x7FFF, 0x8000, 0x8012, 0xFFFF}
 var longLens = []int{255, 256, 257, 300, 1000, 32767}
 
@@ -1068,7 +1068,7 @@ func fileLabels(f FileM) []string {
 	return ls
 }
 
-var lookupMuts = []string{"exact", "exact", "kvno0", "kvno0", "other-realm", "comp-prefix", "comp-ext", "comp-mod", "comp-swap", "comp-join",
+var lookupMuts = []string{"exact", "exact", "kvno0", "kvno0", "other-realm", "comp-prefix", "comp-ext", "comp-mod", "comp-swap", "comp-join", "comp-regroup", "comp-regroup",
 	"other-etype", "other-kvno", "other-kvno", "absent"}
 
 // drawLookup derives a lookup from a present entry by zero, one or two near-miss mutations.
@@ -1136,6 +1136,33 @@ func drawLookup(t *rapid.T, model []ktf.Entry, pl filePools) LookupM {
 			} else if len(pl.princs) > 0 {
 				mu = "other-princ"
 				l.Comps = append([]BS{}, rapid.SampledFrom(pl.princs).Draw(t, "lk-princ")...)
+			}
+		case "comp-regroup":
+			// the same characters and the same number of components, with a "/" that lies inside one component moved to the
+			// boundary: ["backup","db/primary"] -> ["backup/db","primary"]
+			done := false
+			for j, c := range l.Comps {
+				i := strings.Index(string(c), "/")
+				if i < 0 || len(l.Comps) < 2 {
+					continue
+				}
+				n := append([]BS{}, l.Comps...)
+				if j > 0 {
+					n[j-1], n[j] = BS(string(n[j-1])+"/"+string(c)[:i]), BS(string(c)[i+1:])
+				} else {
+					n[0], n[1] = BS(string(c)[:i]), BS(string(c)[i+1:]+"/"+string(n[1]))
+				}
+				l.Comps, done = n, true
+				break
+			}
+			if !done {
+				mu = "comp-mod"
+				if len(l.Comps) == 0 {
+					l.Comps = append(l.Comps, "x")
+				} else {
+					l.Comps = append([]BS{}, l.Comps...)
+					l.Comps[0] = variant(t, "lk-comp", l.Comps[0])
+				}
 			}
 		case "comp-join":
 			if len(l.Comps) >= 2 {
